@@ -50,7 +50,7 @@ class SessionResult:
     pass
 
 
-def run_session(proj: Project, args=(), env=None, stdin=None, timeout=120, hashseed="0", plugin=True, failpoint=None, cwd_sub=None):
+def run_session(proj: Project, args=(), env=None, stdin=None, timeout=120, hashseed="0", plugin=True, failpoint=None, cwd_sub=None, cache=False):
     """cwd_sub: start pytest in this (created, otherwise empty) sub-directory of the project; the caller
     passes the path of the tests (e.g. `..`) among args"""
     junit = proj.dir / "junit.xml"
@@ -65,7 +65,7 @@ def run_session(proj: Project, args=(), env=None, stdin=None, timeout=120, hashs
     if env:
         extra.update(env)
     e = common.child_env(extra, hashseed=hashseed)
-    cmd = [common.PY, "-m", "pytest", "-p", "no:cacheprovider", "-p", "no:benchmark", "-p", "no:randomly", f"--junitxml={junit}", "-o", "junit_family=xunit1"]
+    cmd = [common.PY, "-m", "pytest"] + ([] if cache else ["-p", "no:cacheprovider"]) + ["-p", "no:benchmark", "-p", "no:randomly", f"--junitxml={junit}", "-o", "junit_family=xunit1"]
     if plugin:
         cmd += ["-p", "ismon.verif_mon"]
     cmd += list(args)
